@@ -18,6 +18,8 @@ theorem tie_env_default_keys : Generated.envDefaults.map (·.1) = ["PATH", "SSL_
 theorem tie_annotation_keys : Generated.annotationKeys.map String.toList = [keySource, keyRevision, keyCreated] := by decide
 theorem tie_shell_prefix : shellPrefix = ["/bin/sh".toList, "-c".toList] := by decide
 theorem tie_author_os : Generated.cfgAuthor = "github.com/chainguard-dev/apko" ∧ Generated.cfgOS = "linux" := by decide
+theorem tie_arch_plain : Generated.parseArchMiddle =
+    ["if s == \".\" || s == \"..\" || strings.Contains(s, \"/\") { s = strings.NewReplacer(\"/\", \"%2F\", \".\", \"%2E\").Replace(s) }"] := by decide
 theorem tie_arch_defaults : Generated.parseArchDefault = "return Architecture(s)" ∧
     Generated.toAPKDefault = "return string(a)" ∧ Generated.toOCIDefault = "plat.Architecture = string(a)" ∧
     Generated.toOCIInit = "plat := v1.Platform{OS: \"linux\"}" := by decide
@@ -129,6 +131,9 @@ theorem tie_allArchs : allArchs = Spec.knownArchs := by decide
 theorem parse_table_facts :
     (∀ p ∈ parseArchTable, Spec.canonArch p.1 = p.2) ∧ (∀ k ∈ keysOf Spec.aliases, k ∈ keysOf parseArchTable) := by decide
 
+/-- a supported architecture is named in ParseArchitecture's switch or is one plain path element -/
+theorem known_plain_facts : ∀ a ∈ Spec.knownArchs, a ∈ keysOf parseArchTable ∨ plainArch a = a := by decide
+
 /-- ParseArchitecture is the specification's alias resolution, for every string -/
 theorem parseArch_spec (s : Text) : parseArch s = Spec.canonArch s := by
   by_cases h : s ∈ keysOf parseArchTable
@@ -136,7 +141,13 @@ theorem parseArch_spec (s : Text) : parseArch s = Spec.canonArch s := by
     have := parse_table_facts.1 _ (lookupT_mem hv)
     simp only [parseArch, hv, Option.getD_some]; exact this.symm
   · have h' : s ∉ keysOf Spec.aliases := fun hk => h (parse_table_facts.2 s hk)
-    simp [parseArch, Spec.canonArch, lookupT_none h, lookupT_none h']
+    simp only [parseArch, Spec.canonArch, lookupT_none h, lookupT_none h', Option.getD_none]
+    split
+    · next hk =>
+      rcases known_plain_facts s hk with e | e
+      · exact absurd e h
+      · exact e
+    · rfl
 
 theorem apk_table_facts :
     (∀ p ∈ toAPKTable, lookupT p.1 Spec.apkNames = some p.2) ∧ (∀ k ∈ keysOf Spec.apkNames, k ∈ keysOf toAPKTable) := by decide
